@@ -460,7 +460,7 @@ def run(ctx):
     archs, isa_of, mods1, mods2 = setup(ctx)
     boost = 4 if ctx.broken else 1
     # ---- level 1
-    n1 = (500 if ctx.tier == "quick" else 6000) * boost
+    n1 = (1500 if ctx.tier == "quick" else 12000) * boost
     t = time.time()
     specs = [L.synth_case(ctx.rng) for _ in range(n1)]
     c1 = f1 = 0
@@ -540,5 +540,6 @@ def replay(ctx, path):
     for k, what in ctx.known_seen:
         print("KNOWN-FINDING:", what)
     rc = 1 if ctx.violations else 0
+    print("REPLAY: %s" % ("the input still violates C13" if rc else "the property holds on this input with the current tree"))
     ctx.cleanup()
     return rc
